@@ -383,6 +383,23 @@ func c07Property(t *rapid.T, st *Stats) {
 			}
 			subj := &mdesc{MediaType: smt, Digest: sd, Size: ssz}
 			at := rapid.SampledFrom(c07ATs).Draw(t, "artifactType")
+			// half of the time the type most referrers of this subject already have: filtered listings grow beyond one page
+			if rapid.Bool().Draw(t, "sameTypeAsOthers") {
+				counts := map[string]int{}
+				for _, m := range s.wantSet(rn, sd, "") {
+					if m.at != "" {
+						counts[m.at]++
+					}
+				}
+				for _, a := range sortedKeys(counts) {
+					if counts[a] > counts[at] || !contains(c07ATs, at) {
+						at = a
+					}
+				}
+				if !contains(c07ATs, at) {
+					at = c07ATs[1]
+				}
+			}
 			var ann map[string]string
 			switch rapid.IntRange(0, 5).Draw(t, "annKind") {
 			case 1:
@@ -608,6 +625,22 @@ func c07Property(t *rapid.T, st *Stats) {
 				t.Skip("unspecified")
 			}
 			filter := rapid.SampledFrom(append([]string{"application/vnd.x.none", mtConfig}, c07ATs...)).Draw(t, "filter")
+			// half of the time the filter the most referrers of this subject match: a filtered listing of several pages
+			counts := map[string]int{}
+			for _, m := range s.wantSet(rn, sd, "") {
+				counts[m.at]++
+			}
+			if best := sortedKeys(counts); len(best) > 0 && rapid.Bool().Draw(t, "commonFilter") {
+				top := best[0]
+				for _, a := range best {
+					if counts[a] > counts[top] {
+						top = a
+					}
+				}
+				if top != "" {
+					filter = top
+				}
+			}
 			e.logf("read %s referrers/%s filter=%q (twice)", rn, short(sd), filter)
 			if filter != "" {
 				e.class("filtered")
